@@ -208,6 +208,61 @@ Theorem C16_loop_init_abort_refuted :
 Proof. exact loop_init_abort_witness. Qed.
 Print Assumptions C16_loop_init_abort_refuted.
 
+(* ---- the timeout loop of uv__io_poll under interrupted / event-less wake-ups ------------------------ *)
+(* For every script of epoll_pwait answers whose reported elapsed times lie within the timeout
+   of their call (r_ok), with and without UV_METRICS_IDLE_TIME: the time blocked never exceeds
+   the timeout the function was given, and every call passes a timeout of at most
+   given - elapsed-so-far (never negative). *)
+Theorem C16_io_poll_respects_timeout :
+  forall metrics T o,
+  0 <= T -> r_ok (io_poll metrics T o) = true ->
+  r_blocked (io_poll metrics T o) <= T /\
+  Forall (fun c => fst c + snd c <= T /\ 0 <= fst c) (r_calls (io_poll metrics T o)).
+Proof. exact io_poll_respects_timeout. Qed.
+Print Assumptions C16_io_poll_respects_timeout.
+
+(* "each retry passes exactly given - elapsed-so-far": true for the first retry ... *)
+Theorem C16_io_poll_first_retry_exact :
+  forall T e o, 0 <= e < T ->
+  nth_call 0 (io_poll false T (PIntr e :: o)) = Some (T, 0) /\
+  nth_call 1 (io_poll false T (PIntr e :: o)) = Some (T - e, e).
+Proof. exact io_poll_first_retry_exact. Qed.
+Print Assumptions C16_io_poll_first_retry_exact.
+
+(* ... refuted from the second retry on: base is never advanced, so the time since entry is
+   subtracted again from the already reduced real_timeout; the function wakes up early *)
+Theorem C16_io_poll_retry_exact_refuted :
+  exists T o,
+    r_ok (io_poll false T o) = true /\
+    nth_call 2 (io_poll false T o) = Some (700, 200) /\ 700 <> T - 200 /\
+    r_end (io_poll false T o) = PeTimeout /\ r_blocked (io_poll false T o) < T.
+Proof. exact io_poll_retry_exact_refuted. Qed.
+Print Assumptions C16_io_poll_retry_exact_refuted.
+
+(* interrupted calls: for the same reason even an interruption that reports no elapsed time
+   changes the wake-up time once something has elapsed ... *)
+Theorem C16_io_poll_eintr_transparent_refuted :
+  r_blocked (io_poll false 1000 [PIntr 100; PIntr 0]) <> r_blocked (io_poll false 1000 [PIntr 100]).
+Proof. exact io_poll_zero_intr_not_transparent. Qed.
+Print Assumptions C16_io_poll_eintr_transparent_refuted.
+
+(* ... what holds: a storm of k interruptions that report no elapsed time, in front of any
+   script, changes neither the wake-up time nor what follows; one interruption of any length is
+   exact; the metrics variant continues exactly like the plain one after its non-blocking probe *)
+Theorem C16_io_poll_eintr_transparent_partial :
+  (forall T k o, (0 < T \/ T = -1) ->
+     pobs (io_poll false T (repeat (PIntr 0) k ++ o)) = pobs (io_poll false T o)) /\
+  (forall T e, 0 <= e < T ->
+     r_blocked (io_poll false T [PIntr e]) = T /\ r_end (io_poll false T [PIntr e]) = PeTimeout /\
+     r_blocked (io_poll false T []) = T /\ r_end (io_poll false T []) = PeTimeout) /\
+  (forall T o probe, (0 < T \/ T = -1) -> probe = PTimeout \/ probe = PIntr 0 ->
+     pobs (io_poll true T (probe :: o)) = pobs (io_poll false T o)).
+Proof.
+  split; [exact io_poll_eintr_storm_transparent|]. split; [exact io_poll_single_intr_exact|].
+  exact io_poll_metrics_reduces.
+Qed.
+Print Assumptions C16_io_poll_eintr_transparent_partial.
+
 (* ---- the hypotheses are satisfiable / the models run ----------------------------------------------- *)
 Example C16_example :
   o_res (uv_spawn [true; true; false] true l0 (mkW [] [Ok; Fail EMFILE] [])) = Ret (RcErr EMFILE) /\
